@@ -285,6 +285,13 @@ def run_library(acc, d, dmx, strategy, name, wl, iwl, r, lib, n, single, case_id
                 if str(got) != str(val):
                     acc.violate(f'field-not-restored:{tag}', f'{name} lib {lib!r} pair {pid} mate {mi + 1}: {tag}={got!r} expected {val!r}; header {names[mi][:160]}',
                                 {'header': names[mi], 'library': lib, 'tag': tag, 'got': str(got), 'expected': str(val), 'reads': rd})
+            # nothing may come out of the decoder that was not encoded in THIS read's name (state must not leak between reads)
+            allowed = set(t0) | {'MI', 'QM', 'ah', 'SM', 'BK', 'RG', 'bi'}
+            for tg, _ in a.get_tags():
+                if tg not in allowed:
+                    acc.violate('tag-not-encoded-in-this-name', f'{name} pair {pid} mate {mi + 1}: tag {tg}={a.get_tag(tg)!r} was never encoded in its read name '
+                                                                f'{names[mi][:150]}', {'header': names[mi], 'library': lib, 'tag': tg})
+                    break
             if coord is not None and a.query_name != coord:
                 acc.violate('read-name-not-restored', f'{name}: read name {a.query_name!r} expected {coord!r}', {'header': names[mi]})
         uq_all = ''.join(cat(rd, lay['umi'])[1] if lay['umi'] else '') + (seg(rd, lay['lh'])[1] if lay['lh'] else '')
